@@ -57,6 +57,7 @@ def run(ctx: Ctx) -> int:
     ctx.oblige("C15.b", ok and raises_type, call, "ActionLink.__call__ has no normal exit: direct assignment of a link target always raises TypeError" if ok and raises_type else "ActionLink.__call__ can return normally (a link target can be assigned from the command line)", fn=call)
 
     init = ctx.func("_link_arguments:ActionLink.__init__")
+    ctx.expect_locals(init, ["parser", "target", "is_target_subclass", "valid_target_leaf"])
     gi = ctx.cfg(init)
     repoint = None
     for n in walk_local(init):
@@ -106,6 +107,7 @@ def run(ctx: Ctx) -> int:
 
     # ---------------- C15.c ----------------------------------------------------
     dump = ctx.func("_core:ArgumentParser.dump")
+    ctx.expect_locals(dump, ["cfg", "defaults", "cfg_dict"])
     gd = ctx.cfg(dump)
     strips = [c for c in calls_in(dump) if call_leaf(c) == "strip_link_target_keys"]
     asd = [c for c in calls_in(dump) if call_leaf(c) == "as_dict" and root_name(c.func) == "cfg"]
@@ -177,6 +179,7 @@ def run(ctx: Ctx) -> int:
 
     # ---------------- C15.d ----------------------------------------------------
     stv = ctx.func("_link_arguments:ActionLink.set_target_value")
+    ctx.expect_locals(stv, ["value", "cfg", "target_key", "parent", "child_key", "item"])
     g4 = ctx.cfg(stv)
     stores = []
     for s in walk_local(stv):
